@@ -451,7 +451,8 @@ TYPE_INTROSPECTION_FIELD = Field(
     __Type__,
     description="Request the type information of a single type.",
     args=[Argument("name", NonNullType(String))],
-    resolver=lambda p, c, info, **args: info.schema.get_type(args["name"]),
+    # `__type` is nullable: an unknown name answers null.
+    resolver=lambda p, c, info, **args: info.schema.types.get(args["name"]),
 )
 
 
